@@ -218,14 +218,27 @@ func c09Run(c *fw.Ctx) {
 	})
 
 	// ---- 1b. the same question for the Cognito provider, which revalidates through its userinfo endpoint ----
-	ce := envs.get("c09-cognito", harness.AuthOpts{EmailDomains: []string{"corp.test"}, RootDomains: []string{"sso.test"}, Lifetime: L, ProviderType: "cognito"})
 	drive(c, "sign_in-cognito", -1, func(x *explore.Exec, owned bool) {
 		setNow(0)
 		due := x.Choose("token-deadline", 2)
+		earlierVisit := x.Choose("signed-in-a-moment-ago", 2) == 1
+		// a fresh authenticator for every execution: whatever it remembers must come from this execution
+		ce, cerr := harness.NewAuthEnv(harness.AuthOpts{EmailDomains: []string{"corp.test"}, RootDomains: []string{"sso.test"}, Lifetime: L, ProviderType: "cognito"})
+		if cerr != nil {
+			panic(explore.HarnessError{Msg: cerr.Error()})
+		}
+		defer ce.Close()
 		sess := &sessions.SessionState{ProviderSlug: ce.Slug, AccessToken: "idp-access-token", RefreshToken: "idp-refresh-token", Email: "bob@corp.test", User: "bob",
 			LifetimeDeadline: future, RefreshDeadline: []time.Time{future, past}[due], ValidDeadline: future}
 		okUser := ans(200, `{"email":"bob@corp.test","username":"bob"}`)
 		bad := []harness.AuthAnswer{okUser, ans(401, `{"error":"invalid_token"}`), ans(403, "forbidden"), ans(404, "not found"), ans(400, `{"error":"invalid_request"}`), ans(429, "slow"), ans(500, "boom"), ans(200, "malformed{")}
+		if earlierVisit {
+			// the same browser signed in a moment ago while the identity provider still accepted the token
+			ce.IdP.Answer = func(cl *harness.IdPCall) harness.AuthAnswer { return okUser }
+			s0 := *sess
+			s0.RefreshDeadline = future
+			ce.Do(harness.NewRequest("GET", signedSignIn(ce, good, now), harness.AuthHost, http.Header{"Cookie": {ce.CookieName + "=" + ce.Seal(&s0)}}, nil))
+		}
 		idpScript{x: x, userinfo: bad, refresh: []harness.AuthAnswer{refreshOK, ans(401, `{"error":"invalid_grant"}`), ans(403, "forbidden"), ans(400, `{"error":"invalid_grant"}`), ans(500, "boom")}}.install(ce)
 		resp := ce.Do(harness.NewRequest("GET", signedSignIn(ce, good, now), harness.AuthHost, http.Header{"Cookie": {ce.CookieName + "=" + ce.Seal(sess)}}, nil))
 		if !owned {
@@ -241,8 +254,8 @@ func c09Run(c *fw.Ctx) {
 			}
 		}
 		codes := codesIn(ce, resp)
-		d := map[string]interface{}{"provider": "cognito", "token_deadline": fp(due), "idp_calls": calls, "status": resp.Status, "location": truncate(resp.Location, 160)}
-		c.Res.Outcome(fmt.Sprintf("sign_in-cognito|%v|%v|%d|codes=%d", due, calls, resp.Status, len(codes)))
+		d := map[string]interface{}{"provider": "cognito", "token_deadline": fp(due), "signed_in_a_moment_ago": earlierVisit, "idp_calls": calls, "status": resp.Status, "location": truncate(resp.Location, 160)}
+		c.Res.Outcome(fmt.Sprintf("sign_in-cognito|%v|%v|%v|%d|codes=%d", due, earlierVisit, calls, resp.Status, len(codes)))
 		if len(codes) > 0 {
 			c.Res.Count("positive_codes_issued_cognito", 1)
 			if !(asked && okAll) {
@@ -259,37 +272,58 @@ func c09Run(c *fw.Ctx) {
 		pd := func() *authp.ProviderData {
 			return &authp.ProviderData{ClientID: "cid", ClientSecret: "cs", SessionLifetimeTTL: time.Hour}
 		}
-		gp, err := authp.NewGoogleProvider(pd(), "", "", "", "")
-		if err != nil {
-			panic(explore.HarnessError{Msg: err.Error()})
-		}
-		gp.RedeemURL = &url.URL{Scheme: "https", Host: idp.Addr(), Path: "/oauth2/v4/token"}
-		gp.ValidateURL = &url.URL{Scheme: "https", Host: idp.Addr(), Path: "/oauth2/v3/tokeninfo"}
-		op, err := authp.NewOktaProvider(pd(), idp.Addr(), "")
-		if err != nil {
-			panic(explore.HarnessError{Msg: err.Error()})
-		}
-		cp, err := authp.NewAmazonCognitoProvider(pd(), idp.Addr(), "us-east-1", "pool-id", "aws-id", "aws-secret")
-		if err != nil {
-			panic(explore.HarnessError{Msg: err.Error()})
-		}
 		type prov interface {
 			ValidateSessionState(*sessions.SessionState) bool
 			RefreshSessionIfNeeded(*sessions.SessionState) (bool, error)
 		}
-		provs := []struct {
-			name string
-			p    prov
-		}{{"google", gp}, {"okta", op}, {"cognito", cp}}
+		// providers are built anew for every execution: whatever they remember must come from this execution
+		build := func(name string) prov {
+			switch name {
+			case "google":
+				gp, err := authp.NewGoogleProvider(pd(), "", "", "", "")
+				if err != nil {
+					panic(explore.HarnessError{Msg: err.Error()})
+				}
+				gp.RedeemURL = &url.URL{Scheme: "https", Host: idp.Addr(), Path: "/oauth2/v4/token"}
+				gp.ValidateURL = &url.URL{Scheme: "https", Host: idp.Addr(), Path: "/oauth2/v3/tokeninfo"}
+				return gp
+			case "okta":
+				op, err := authp.NewOktaProvider(pd(), idp.Addr(), "")
+				if err != nil {
+					panic(explore.HarnessError{Msg: err.Error()})
+				}
+				return op
+			}
+			cp, err := authp.NewAmazonCognitoProvider(pd(), idp.Addr(), "us-east-1", "pool-id", "aws-id", "aws-secret")
+			if err != nil {
+				panic(explore.HarnessError{Msg: err.Error()})
+			}
+			return cp
+		}
+		provs := []string{"google", "okta", "cognito"}
 		statuses := []int{200, 201, 204, 400, 401, 403, 404, 429, 500, 503}
 		shapes := []string{"affirmative", "negative", "empty", "malformed"}
 		drive(c, "provider-acceptance", -1, func(x *explore.Exec, owned bool) {
-			pv := provs[x.Choose("provider", len(provs))]
+			pvName := provs[x.Choose("provider", len(provs))]
+			pv := struct {
+				name string
+				p    prov
+			}{pvName, build(pvName)}
 			op := []string{"validate", "refresh"}[x.Choose("operation", 2)]
+			// second-order state: the same token was accepted a moment ago (healthy identity provider)
+			earlier := x.Choose("accepted-a-moment-ago", 2) == 1
 			st := statuses[x.Choose("status", len(statuses))]
 			shape := shapes[x.Choose("body", len(shapes))]
 			reset := x.Choose("connection-reset", 2) == 1
 			var calls []string
+			if earlier {
+				idp.Answer = func(cl *harness.IdPCall) harness.AuthAnswer {
+					return ans(200, map[string]string{"token": `{"access_token":"idp-access-token","expires_in":1800}`, "introspect": `{"active":true,"aud":"cid","expires_in":1000}`,
+						"userinfo": `{"email":"bob@corp.test","email_verified":true,"username":"bob"}`}[cl.Endpoint])
+				}
+				pv.p.ValidateSessionState(&sessions.SessionState{AccessToken: "idp-access-token", RefreshToken: "idp-refresh-token", Email: "bob@corp.test", User: "bob",
+					LifetimeDeadline: harness.At(2 * time.Hour), RefreshDeadline: future, ValidDeadline: future})
+			}
 			idp.Answer = func(cl *harness.IdPCall) harness.AuthAnswer {
 				calls = append(calls, cl.Endpoint)
 				body := ""
@@ -326,8 +360,8 @@ func c09Run(c *fw.Ctx) {
 			if !owned {
 				return
 			}
-			d := map[string]interface{}{"provider": pv.name, "operation": op, "status": st, "body": shape, "connection_reset": reset, "result": ok, "error": fmt.Sprint(opErr), "identity_provider_calls": calls}
-			c.Res.Outcome(fmt.Sprintf("provider-acceptance|%s|%s|%d|%s|%v|%v|%v", pv.name, op, st, shape, reset, ok, opErr != nil))
+			d := map[string]interface{}{"provider": pv.name, "operation": op, "accepted_a_moment_ago": earlier, "status": st, "body": shape, "connection_reset": reset, "result": ok, "error": fmt.Sprint(opErr), "identity_provider_calls": calls}
+			c.Res.Outcome(fmt.Sprintf("provider-acceptance|%s|%s|%v|%d|%s|%v|%v|%v", pv.name, op, earlier, st, shape, reset, ok, opErr != nil))
 			viol := func(key, what string) {
 				c.Res.Violate(fw.Violation{Property: "C09", Key: "C09/provider-acceptance/" + key, What: what, Scenario: "provider-acceptance", Choices: x.Choices(), Detail: d})
 			}
